@@ -190,6 +190,8 @@ struct WOut {
     finish: String,
     sink: Vec<u8>,
     completion: Vec<usize>,
+    /// number of calls (write / flush) the sink received
+    calls: usize,
 }
 
 fn run_writer(blocks: Vec<Vec<u8>>, level: u8, policy: usize, want: usize, seed: u64, fail_at: Option<usize>, fail_once: bool) -> Option<WOut> {
@@ -227,13 +229,14 @@ fn run_writer(blocks: Vec<Vec<u8>>, level: u8, policy: usize, want: usize, seed:
             }
         };
         drop(w);
-        (results, finish, sink.accepted())
+        let calls = sink.0.lock().map(|s| s.calls).unwrap_or(0);
+        (results, finish, sink.accepted(), calls)
     });
     gate.stop();
     let _ = ctl.join();
     bgzf::verif::set_hook(None);
     let completion = g3.st.lock().unwrap_or_else(|e| e.into_inner()).ended.clone();
-    out.map(|(results, finish, sink)| WOut { results, finish, sink, completion })
+    out.map(|(results, finish, sink, calls)| WOut { results, finish, sink, completion, calls })
 }
 
 fn writer_cases(ctx: &mut Ctx, threads: usize) {
@@ -247,6 +250,11 @@ fn writer_cases(ctx: &mut Ctx, threads: usize) {
     for k in 0..nf {
         let sub = ctx.seed.wrapping_mul(77_003).wrapping_add(k).wrapping_add(threads as u64 * 1_000_003);
         writer_fail_case(ctx, threads, sub, k as usize);
+    }
+    // … and at each of the last calls (the end-of-file marker is written by finish() only)
+    for k in 0..ctx.n(6, 24) {
+        let sub = ctx.seed.wrapping_mul(77_003).wrapping_add(500 + k).wrapping_add(threads as u64 * 1_000_003);
+        writer_fail_case(ctx, threads, sub, FROM_END + (k % 3) as usize);
     }
 }
 
@@ -281,6 +289,8 @@ fn writer_case(ctx: &mut Ctx, threads: usize, sub: u64, emit: bool) {
     }
 }
 
+const FROM_END: usize = 1_000_000;
+
 fn writer_fail_case(ctx: &mut Ctx, threads: usize, sub: u64, k: usize) {
     let mut rng = Rng::new(sub);
     let case = format!("writer-fail {threads} {sub} {k}");
@@ -289,6 +299,17 @@ fn writer_fail_case(ctx: &mut Ctx, threads: usize, sub: u64, k: usize) {
     let policy = rng.below(4) as usize;
     ctx.eval(Some(fnv(case.as_bytes())));
     let once = rng.chance(1, 2);
+    // k >= FROM_END: the failing call is counted back from the last call a healthy run makes (the end-of-file
+    // marker and whatever flush follows it), learnt from a healthy run over the same blocks
+    let k = if k >= FROM_END {
+        match run_writer(blocks.clone(), 6, policy, 2, sub, None, false) {
+            Some(o) if o.calls > k - FROM_END => o.calls - 1 - (k - FROM_END),
+            _ => return,
+        }
+    } else {
+        k
+    };
+    ctx.bump("writer_fail_cases");
     match run_writer(blocks.clone(), 6, policy, 2, sub, Some(k), once) {
         None => ctx.fail("mt-writer-hang", format!("multithreaded writer with a sink failing at call {k} did not return within 8 s (or panicked)"), case),
         Some(o) => {
